@@ -1,4 +1,5 @@
 import NbioVerif.Lemmas.C10Pipe
+import NbioVerif.Lemmas.C10Measure
 import NbioVerif.Lemmas.C10Close
 import NbioVerif.Lemmas.C10Heap
 import NbioVerif.Lemmas.C10Client
@@ -194,6 +195,16 @@ theorem c10_progress (cfg : Cfg α) (acts : List Act) :
           split
           · rfl
           · split <;> rfl
+
+/-- **Every step of the connection itself makes progress**: the measure `mu` (steps still owed to the
+    requests not yet parsed, the queued jobs, the running job's writes, plus the bytes still to flush)
+    strictly decreases with every parse / start / write / flush / finish, from any state.  With
+    `c10_progress`: under any scheduler that keeps taking enabled steps a connection reaches quiescence
+    after at most `mu cfg init` own steps — every request is eventually parsed and its job finished
+    (liveness in safety form; fairness of the real executors and pollers is assumed, not proved). -/
+theorem c10_terminates (cfg : Cfg α) (s s' : St α) (a : Act) (hs : step cfg s a = some s')
+    (ha : a ≠ Act.extClose) : mu cfg s' < mu cfg s :=
+  mu_decreases cfg s s' a hs ha
 
 /-- **`closeDecision` is RFC 7230 §6.3** on the agreed domain (each `Connection` header line carries a
     single option: no comma, no tab), for every version and every list of header lines:
